@@ -36,7 +36,7 @@ CPORT = 5555          # canonical client port
 SPORT = 69            # canonical server port
 BINDS = ["::", V6, V4M]
 # other spellings of "all interfaces" (the bound socket reports "::" resp. "::ffff:0.0.0.0")
-WILD_SPELLINGS = ["0::0", "::0", "", "0:0:0:0:0:0:0:0", "::ffff:0.0.0.0"]
+WILD_SPELLINGS = ["0::0", "::0", "0::", "", "0:0:0:0:0:0:0:0", "0000:0000:0000:0000:0000:0000:0000:0000", "::ffff:0.0.0.0"]
 
 SCRIPTS = {}          # request id -> list of (tag, accept)
 LOGS = {}             # request id -> list of events
@@ -195,6 +195,27 @@ def _tmpdir():
     return _tmp
 
 
+_PLATFORM_PKTINFO = None
+
+
+def platform_has_pktinfo():
+    """does the PLATFORM offer IPV6_RECVPKTINFO + recvmsg?  Probed once on a scratch socket, independently of what
+    the server under test decided to enable."""
+    global _PLATFORM_PKTINFO
+    if _PLATFORM_PKTINFO is None:
+        try:
+            t = socket.socket(socket.AF_INET6, socket.SOCK_DGRAM)
+            try:
+                ok = hasattr(t, "recvmsg")
+                t.setsockopt(socket.IPPROTO_IPV6, socket.IPV6_RECVPKTINFO, 1)
+            finally:
+                t.close()
+            _PLATFORM_PKTINFO = bool(ok)
+        except (AttributeError, OSError):
+            _PLATFORM_PKTINFO = False
+    return _PLATFORM_PKTINFO
+
+
 def tftp_server(bind, pktinfo, filemode=False, restart=None):
     """restart: None = shared instance; "first" = dedicated instance; "restart" = stop() and start() that instance"""
     key = (bind, pktinfo, filemode, restart is not None)
@@ -206,8 +227,10 @@ def tftp_server(bind, pktinfo, filemode=False, restart=None):
         s = TS.TftpServer(hs, bind, 0, default_timeout=2.0, max_retries=1)
         s.start()
         atexit.register(s.stop)
-        if not s._have_pktinfo:
+        if not platform_has_pktinfo():
             raise RuntimeError("platform without IPV6_RECVPKTINFO: C10 cannot exercise the packet-info path")
+        # pktinfo=True: the server is left as it configured itself - a server that does not enable packet info
+        # although the platform has it shows up in the observation (the handler gets the bound address)
         if not pktinfo:
             s._have_pktinfo = False       # read by TftpServer._run on every iteration
             time.sleep(0.25)
